@@ -7,6 +7,7 @@
 package leveldb
 
 import (
+	"bytes"
 	"fmt"
 	"io"
 	"os"
@@ -157,6 +158,7 @@ func (s *session) recover() (err error) {
 		jr      = journal.NewReader(reader, dropper{s, fd}, strict, true)
 		rec     = &sessionRecord{}
 		staging = s.stVersion.newStaging()
+		buf     bytes.Buffer
 	)
 	for {
 		var r io.Reader
@@ -169,7 +171,20 @@ func (s *session) recover() (err error) {
 			return errors.SetFd(err, fd)
 		}
 
-		err = rec.decode(r)
+		// A record is decoded only once it has been read completely. A record
+		// torn by a crash (its first chunk is there, the rest is not) ends with
+		// io.ErrUnexpectedEOF when the reader is not strict: it must be skipped
+		// as a whole, instead of leaving its leading fields (journal, sequence
+		// and file numbers) in rec while its table edits are dropped.
+		buf.Reset()
+		if _, err = buf.ReadFrom(r); err != nil {
+			if err == io.ErrUnexpectedEOF {
+				s.logf("manifest error: incomplete record (skipped)")
+				continue
+			}
+			return errors.SetFd(err, fd)
+		}
+		err = rec.decode(&buf)
 		if err == nil {
 			// save compact pointers
 			for _, r := range rec.compPtrs {
